@@ -1,8 +1,8 @@
 SPECIFICATION Spec
 CONSTANTS
  RSizes = {8, 16}
- Rs = {1, 3}
- NMs <- NMt
+ Rs = {1, 2}
+ NMs <- NMq
  Ls = {0, 2}
  Os = {1, 3}
  ModeLs = {0, 2}
